@@ -75,8 +75,10 @@ type impCfg struct {
 	Ov    map[string]string
 	Used  map[string]bool
 	Shape int // 0: one parenthesised block; 1: one declaration per import; 2: "C" in its own first block
-	Lit   int // form of the import path literals: 0 "a/x", 1 raw `a/x`, 2 interpreted with an escape "a\x2fx", 3 "a/x" in a hand-made spec (literal with its text only, Kind unset)
+	Lit   int // form of the import path literals: 0 "a/x", 1 raw `a/x`, 2 interpreted with an escape "a\x2fx", 3 "a/x" in a hand-made spec (literal with its text only, Kind unset); 4: plain literals, the alias z spelled with a letter outside ASCII (in the source and in the Alias map)
 }
+
+const impGreekZ = "ζώνη" // an identifier of four two-byte letters
 
 func (c impCfg) key() string {
 	var s []string
@@ -99,6 +101,9 @@ func (c impCfg) source() string {
 	spec := func(p string) string {
 		if c.Src[p] == "" {
 			return lit(p)
+		}
+		if c.Lit == 4 && c.Src[p] == "z" {
+			return impGreekZ + " " + lit(p)
 		}
 		return c.Src[p] + " " + lit(p)
 	}
@@ -202,6 +207,9 @@ func impRun(c impCfg) (*impObs, string) {
 	fr := decorator.NewRestorerWithImports("main", simple.New(names)).FileRestorer()
 	for p, o := range c.Ov {
 		if o != "unset" {
+			if c.Lit == 4 && o == "z" {
+				o = impGreekZ
+			}
 			fr.Alias[p] = o
 		}
 	}
@@ -213,6 +221,11 @@ func impRun(c impCfg) (*impObs, string) {
 		return nil, "error: " + err.Error()
 	}
 	out := buf.String()
+	if c.Lit == 4 {
+		// back to the model's alphabet (the other names in play are ASCII: nothing else can become "z")
+		out = strings.ReplaceAll(out, impGreekZ, "z")
+		src = strings.ReplaceAll(src, impGreekZ, "z")
+	}
 	fset := token.NewFileSet()
 	af, err := parser.ParseFile(fset, "", out, 0)
 	if err != nil {
@@ -326,7 +339,7 @@ func checkC07(c *Ctx) {
 						cf.Src[p], cf.Ov[p], cf.Used[p] = s, o, u
 						add(cf)
 						if variant == 0 { // the same configuration with the other forms of path literal
-							for lit := 1; lit <= 3; lit++ {
+							for lit := 1; lit <= 4; lit++ {
 								cl := impCfg{Src: cf.Src, Ov: cf.Ov, Used: cf.Used, Shape: cf.Shape, Lit: lit}
 								add(cl)
 							}
@@ -337,7 +350,7 @@ func checkC07(c *Ctx) {
 		}
 	}
 	for len(cfgs) < n {
-		cf := impCfg{Src: map[string]string{}, Ov: map[string]string{}, Used: map[string]bool{}, Shape: r.Intn(3), Lit: []int{0, 0, 1, 2, 3}[r.Intn(5)]}
+		cf := impCfg{Src: map[string]string{}, Ov: map[string]string{}, Used: map[string]bool{}, Shape: r.Intn(3), Lit: []int{0, 0, 1, 2, 3, 4}[r.Intn(6)]}
 		for _, p := range impPaths {
 			if p == "C" {
 				cf.Src[p], cf.Ov[p], cf.Used[p] = []string{"absent", ""}[r.Intn(2)], "unset", false
